@@ -12,6 +12,8 @@ import Pyunicorn.Model.Window
   | `N` (continue with ClimateData(obj.observable(), obj.grid, …))
   | `sh=<perms>` (shuffled_anomaly, one permutation per column, rows separated by `;`)
   | `cs` (`__cache_state__()`: the counter `_mut_window`)
+  | `W32=a,b,c,d,e,f` (round 5: set_window with Python-float bounds that need not be float32
+    numbers: converted to float32 and compared in float32, `Obj.setWindow32`)
   | `shr=<draws>` (round 4: shuffled_anomaly on the raw 32-bit output stream of the generator;
     answer = the matrix, `@`, the number of draws left over; `exhausted` if the stream runs out)
 
@@ -19,6 +21,12 @@ import Pyunicorn.Model.Window
 loaded from a regular grid (`Data.Load`): the node sequences are computed by the model.
 
 `ry <T> <c>`: `int(T / c)` as evaluated in IEEE double (`rangeYearsF`), and `T // c`.
+
+`flt <c> <obs>` (round 5): `phase_mean()` and `anomaly()` of the float64 observable `obs` (exact
+rationals of the doubles) as executed in IEEE binary64 — every `+`, `/`, `-` rounded to
+nearest-even, the sum over axis 0 row after row (`flPhaseMeanLoop ops64`, `flAnomalyOf ops64`); the
+answer holds the exact rationals of the resulting doubles.  `flt32 <c> <obs>`: the same for a
+float32 observable (`ops32`: `+`, `-` in binary32, the division in double then rounded to binary32).
 
 Answer: the outputs of the operations joined by `|`.
 -/
@@ -96,6 +104,13 @@ def doOp (o : Obj) (tok : String) : String × Obj :=
     | some w =>
       let (r, o') := o.setWindow w
       (if r then "raise:ValueError" else "ok", o')
+  else if tok.startsWith "W32=" then
+    -- round 5: Python-float bounds on the float32 grid, compared in float32 as NumPy 2 does
+    match parseWin (tok.drop 4).toString with
+    | none => ("bad-window", o)
+    | some w =>
+      let (r, o') := o.setWindow32 w
+      (if r then "raise:ValueError" else "ok", o')
   else if tok.startsWith "sp=" then
     (showRes showNats (indicesSelectedPhasesI o.cycle T (ints (tok.drop 3).toString)), o)
   else if tok.startsWith "am=" then
@@ -135,6 +150,14 @@ def answer (toks : List String) : String :=
   | ["ry", T, c] =>
     if c.toNat! = 0 then "raise:ZeroDivisionError"
     else s!"{rangeYearsF T.toNat! c.toNat!} {T.toNat! / c.toNat!}"
+  | [cmd, c, obs] =>
+    if cmd == "flt" || cmd == "flt32" then
+      let P := if cmd == "flt" then ops64 else ops32
+      let M := ratMat obs
+      let N := match M with | [] => 0 | r :: _ => r.length
+      showPM N (flPhaseMeanLoop P c.toNat! N M) ++ "|" ++
+        (let A := flAnomalyOf P c.toNat! N M; showMatS A.length N A)
+    else "bad-request"
   | _ => "bad-request"
 
 def main : IO Unit := runDriver answer
